@@ -227,11 +227,29 @@ def make_history(args):
     ops = []
     results = []
     names_used = []
+    # one history in eight starts with the pattern "partition a non-flat spectrum, overwrite it in place with a flat non-zero
+    # one, partition again" (the watershed's early-return path right after a call that filled its static buffers)
+    forced = []
+    if rng.random() < 0.125:
+        forced = [("obs", rng.choice(["ptm3", "ptm3", "smooth", "ptm5"])), ("flat", None), ("obs", "ptm3")]
+        nsteps = max(nsteps, 4)
     for istep in range(nsteps):
         last = istep == nsteps - 1
         r = rng.random()
-        if last or r < 0.4:
-            name = rng.choice(STATS)
+        step = forced.pop(0) if forced else None
+        if step and step[0] == "flat":
+            ops.append("ee")
+            c = rng.choice([0.5, 2.0, 3.0])
+            E = np.full((nt, nf, nd), c) if nt else np.full((nf, nd), c)
+            evers.append(E)
+            if kind == "ds":
+                obj["efth"] = (obj["efth"].dims, E)
+            else:
+                obj.values[...] = E
+            results.append(None)
+            continue
+        if step or last or r < 0.4:
+            name = step[1] if step else rng.choice(STATS)
             via = rng.choice(["sd", "sa"]) if kind == "ds" else "sa"
             ops.append(f"{via}:{name}")
             try:
